@@ -4,7 +4,8 @@ xh : ``_fetch_and_resolve`` (real bytecode, together with the real ``_dispatch_l
      environment re-globalised: ``fetch_url`` returns an opaque blob, ``hashlib.sha256`` is an ideal hash whose
      digest equals or differs from the expected one (symbolic), ``ipc.open_stream``/``ValidatedReader`` yield a *symbolic* sequence of <= 3
      batches.  Each batch is described by independent symbolic flags: zero rows?, metadata present?, carries
-     ``vgi_rpc.location``?, carries log level / log message?, level EXCEPTION?, schema equal to the pointer's?
+     ``vgi_rpc.location``?, carries log level / log message?, level EXCEPTION?, and how its schema relates to the pointer's
+     (field names, field types, field nullability each equal or different; equality = all three).
 
      (a) a batch is returned  <=>  (no expected digest or digest equal) and no batch carries vgi_rpc.location
          and no EXCEPTION-level log batch and exactly one data batch and its schema is equal; the batch returned
@@ -31,7 +32,7 @@ from vgi_rpc.rpc import _wire as wire
 PROPERTY = "C30"
 ENCODED = [ext._fetch_and_resolve, wire._dispatch_log_or_error]
 _NB = pick(2, 3)
-BOUNDS = "payloads of 0..%d batches, every combination of the 7 per-batch flags, expected digest absent / equal to / different from the payload's (ideal hash)" % _NB
+BOUNDS = "payloads of 0..%d batches, every combination of the 6 per-batch flags and of the schema relation (names / types / nullability equal or not), expected digest absent / equal to / different from the payload's (ideal hash)" % _NB
 OUTSIDE = (
     "transparency of offload (maybe_externalize_* -> storage -> fetch -> identical batches: Arrow, storage and aiohttp); the HTTP fetch itself "
     "(C31); SHA-256 (ideal hash); the retry wrapper resolve_external_location (tenacity is not installed here); Arrow's schema equality"
@@ -55,8 +56,28 @@ class _Blob:
 
 
 class _Schema:
-    def __init__(self, same):  # type: ignore[no-untyped-def]
-        self.same = same
+    """An Arrow schema seen through its components, each equal to or different from the pointer's schema:
+    field names, field types, field nullability.  Schema equality (``==``, ``!=``, ``equals``) is the conjunction —
+    what Arrow compares by default (schema-level metadata is not part of ``==``)."""
+
+    def __init__(self, code):  # type: ignore[no-untyped-def]
+        self.code = code  # bit 0: names differ, bit 1: types differ, bit 2: nullability differs
+
+    @property
+    def ns(self):  # type: ignore[no-untyped-def]
+        return self.code % 2 == 0
+
+    @property
+    def ts(self):  # type: ignore[no-untyped-def]
+        return (self.code // 2) % 2 == 0
+
+    @property
+    def nl(self):  # type: ignore[no-untyped-def]
+        return self.code // 4 == 0
+
+    @property
+    def same(self):  # type: ignore[no-untyped-def]
+        return self.code == 0
 
     def __eq__(self, o):  # type: ignore[no-untyped-def]
         return self.same if o is _EXPECTED else NotImplemented
@@ -64,18 +85,71 @@ class _Schema:
     def __ne__(self, o):  # type: ignore[no-untyped-def]
         return (not self.same) if o is _EXPECTED else NotImplemented
 
+    def equals(self, o, check_metadata=False):  # type: ignore[no-untyped-def]
+        if o is not _EXPECTED:
+            raise HarnessModelError("schema compared with something else")
+        return self.same
+
+    @property
+    def names(self):  # type: ignore[no-untyped-def]
+        return ["v"] if self.ns else ["w"]
+
+    @property
+    def types(self):  # type: ignore[no-untyped-def]
+        return ["int64"] if self.ts else ["string"]
+
+    def __len__(self) -> int:
+        return 1
+
+    def field(self, i):  # type: ignore[no-untyped-def]
+        return _Field(self.names[0], self.types[0], True if self.nl else False)
+
+    def __iter__(self):  # type: ignore[no-untyped-def]
+        return iter([self.field(0)])
+
     __hash__ = None  # type: ignore[assignment]
 
     def __format__(self, spec: str) -> str:
         return "<schema>"
 
+    def __getattr__(self, name: str):  # type: ignore[no-untyped-def]
+        raise HarnessModelError("schema." + name + " not modelled")
+
+
+class _Field:
+    def __init__(self, name, type_, nullable):  # type: ignore[no-untyped-def]
+        self.name, self.type, self.nullable = name, type_, nullable
+
+    def __eq__(self, o):  # type: ignore[no-untyped-def]
+        return isinstance(o, _Field) and (self.name, self.type, self.nullable) == (o.name, o.type, o.nullable)
+
+    def equals(self, o, check_metadata=False):  # type: ignore[no-untyped-def]
+        return self.__eq__(o)
+
+    __hash__ = None  # type: ignore[assignment]
+
 
 class _ExpectedSchema:
+    names = ["v"]
+    types = ["int64"]
+
     def __eq__(self, o):  # type: ignore[no-untyped-def]
         return o.same if isinstance(o, _Schema) else o is self
 
     def __ne__(self, o):  # type: ignore[no-untyped-def]
         return not self.__eq__(o)
+
+    def equals(self, o, check_metadata=False):  # type: ignore[no-untyped-def]
+        return self.__eq__(o)
+
+    def __len__(self) -> int:
+        return 1
+
+    def field(self, i):  # type: ignore[no-untyped-def]
+        return _Field("v", "int64", True)
+
+    def __iter__(self):  # type: ignore[no-untyped-def]
+        return iter([self.field(0)])
 
     __hash__ = None  # type: ignore[assignment]
 
@@ -245,8 +319,8 @@ _STUBS = ["fetch_url := opaque blob", "hashlib := ideal sha256", "ValidatedReade
           "pa.KeyValueMetadata/merge_metadata := dict"]
 
 
-def _mk_batch(i, zero, has_cm, loc, lvl, msg, exc, same):  # type: ignore[no-untyped-def]
-    return _Batch(i, zero, has_cm, _Meta(None, i, loc, lvl, msg, exc), _Schema(same))
+def _mk_batch(i, zero, has_cm, loc, lvl, msg, exc, code):  # type: ignore[no-untyped-def]
+    return _Batch(i, zero, has_cm, _Meta(None, i, loc, lvl, msg, exc), _Schema(code))
 
 
 def _oracle(batches, has_expected, digest_equal):  # type: ignore[no-untyped-def]
@@ -297,17 +371,23 @@ _RS = pa.schema([pa.field("v", pa.int64())])
 _RS_OTHER = pa.schema([pa.field("w", pa.string())])
 
 
+def _variant(code: int) -> pa.Schema:
+    name = "w" if code & 1 else "v"
+    typ = pa.string() if code & 2 else pa.int64()
+    return pa.schema([pa.field(name, typ, nullable=not (code & 4))])
+
+
 def _real_payload(n: int, flags) -> bytes:  # type: ignore[no-untyped-def]
-    """An IPC stream whose batches have the flagged properties.  One stream has one schema, so 'schema differs'
-    is realised by writing the whole payload with another schema (the data batch then differs from the pointer's)."""
-    other = any((not f[6]) for f in flags[:n])
-    schema = _RS_OTHER if other else _RS
+    """An IPC stream whose batches have the flagged properties.  One stream has one schema: the whole payload is written
+    with the schema variant of the (normalised) code — other name / other type / other nullability than the pointer's."""
+    code = flags[0][6] if n else 0
+    schema = _variant(code)
     buf = _RealBytesIO()
     with pa.ipc.new_stream(buf, schema) as w:
         for i in range(n):
-            zero, has_cm, loc, lvl, msg, exc, _same = flags[i]
+            zero, has_cm, loc, lvl, msg, exc, _code = flags[i]
             col = ([] if zero else [i])
-            batch = pa.RecordBatch.from_pydict({schema.names[0]: [str(x) for x in col] if other else col}, schema=schema)
+            batch = pa.RecordBatch.from_pydict({schema.names[0]: [str(x) for x in col] if code & 2 else col}, schema=schema)
             md = {b"user.key": b"u%d" % i}
             if loc:
                 md[LOCATION_KEY] = b"https://elsewhere.invalid/x"
@@ -350,7 +430,7 @@ def _flags_of(args: dict):  # type: ignore[no-untyped-def]
 def _normalise_schema_flags(n, flags):  # type: ignore[no-untyped-def]
     """A real stream has one schema; the code looks at the first data batch's only.  Give the whole payload the
     schema relation of the first data batch (as classified by the integrity rule)."""
-    first_same = True
+    first_same = 0
     for i in range(n):
         b = _mk_batch(i, *flags[i])
         cm = b.cm
@@ -403,11 +483,11 @@ def _replay_logs(args: dict) -> str | None:
 @cond(q=60, t=300, stubs=_STUBS, encoded=[ext._fetch_and_resolve, wire._dispatch_log_or_error], bound=BOUNDS, replay=_replay_table,
       signature=lambda a, c: "C30:fetch-and-resolve:decision-differs")
 def payload_returned_iff_all_checks_pass(n: int, has_expected: bool, digest_equal: bool,
-                                         z0: bool, c0: bool, l0: bool, v0: bool, m0: bool, x0: bool, s0: bool,
-                                         z1: bool, c1: bool, l1: bool, v1: bool, m1: bool, x1: bool, s1: bool,
-                                         z2: bool, c2: bool, l2: bool, v2: bool, m2: bool, x2: bool, s2: bool) -> bool:
+                                         z0: bool, c0: bool, l0: bool, v0: bool, m0: bool, x0: bool, s0: int,
+                                         z1: bool, c1: bool, l1: bool, v1: bool, m1: bool, x1: bool, s1: int,
+                                         z2: bool, c2: bool, l2: bool, v2: bool, m2: bool, x2: bool, s2: int) -> bool:
     """
-    pre: 0 <= n <= _NB
+    pre: 0 <= n <= _NB and 0 <= s0 <= 7 and 0 <= s1 <= 7 and 0 <= s2 <= 7
     post: _
     """
     flags = [(z0, c0, l0, v0, m0, x0, s0), (z1, c1, l1, v1, m1, x1, s1), (z2, c2, l2, v2, m2, x2, s2)]
@@ -446,11 +526,11 @@ def payload_returned_iff_all_checks_pass(n: int, has_expected: bool, digest_equa
 @cond(q=60, t=300, stubs=_STUBS, encoded=[ext._fetch_and_resolve, wire._dispatch_log_or_error], bound=BOUNDS, replay=_replay_logs,
       signature=lambda a, c: "C30:fetch-and-resolve:logs-dispatched-before-rejection")
 def nothing_of_a_rejected_payload_reaches_on_log(n: int, has_expected: bool, digest_equal: bool,
-                                                 z0: bool, c0: bool, l0: bool, v0: bool, m0: bool, x0: bool, s0: bool,
-                                                 z1: bool, c1: bool, l1: bool, v1: bool, m1: bool, x1: bool, s1: bool,
-                                                 z2: bool, c2: bool, l2: bool, v2: bool, m2: bool, x2: bool, s2: bool) -> bool:
+                                                 z0: bool, c0: bool, l0: bool, v0: bool, m0: bool, x0: bool, s0: int,
+                                                 z1: bool, c1: bool, l1: bool, v1: bool, m1: bool, x1: bool, s1: int,
+                                                 z2: bool, c2: bool, l2: bool, v2: bool, m2: bool, x2: bool, s2: int) -> bool:
     """
-    pre: 0 <= n <= _NB
+    pre: 0 <= n <= _NB and 0 <= s0 <= 7 and 0 <= s1 <= 7 and 0 <= s2 <= 7
     post: _
     """
     flags = [(z0, c0, l0, v0, m0, x0, s0), (z1, c1, l1, v1, m1, x1, s1), (z2, c2, l2, v2, m2, x2, s2)]
